@@ -60,7 +60,7 @@ HANG_GUARD_S = 120.0     # never a verdict: hitting it raises HarnessError (exit
 # ------------------------------------------------------------------------------------------------
 # the reference class (module level: spawn-ed shard processes import it)
 # ------------------------------------------------------------------------------------------------
-from Pyro5.server import expose      # noqa: E402
+from Pyro5.server import expose, oneway      # noqa: E402
 import Pyro5.errors                   # noqa: E402
 
 
@@ -150,6 +150,21 @@ class Ref(object):
         raise ValueError("unknown kind", kind)
 
     @expose
+    @oneway
+    def note(self, x=None):         # a method flagged @oneway is an ordinary member of a NORMAL batch (its result is None)
+        self.log.append(["note", x])
+
+    @expose
+    def pair(self, a, b=None):      # results that are tuples (what arrives is the serializer's image of a tuple)
+        self.log.append(["pair", a, b])
+        return (a, b)
+
+    @expose
+    def pairs(self, a):
+        self.log.append(["pairs", a])
+        return [(a, 1), (a, (2, a))]
+
+    @expose
     def __total__(self, n=0):       # an exposed custom dunder method is an ordinary remote method
         self.log.append(["__total__", n])
         return [self.counter, len(self.items), n]
@@ -186,7 +201,7 @@ class Ref(object):
         return self.counter
 
 
-EXPOSED = ("incr", "append", "put", "get", "echo", "fail_if", "snapshot", "__total__")     # the harness's own exposure rule
+EXPOSED = ("incr", "append", "put", "get", "echo", "fail_if", "snapshot", "__total__", "note", "pair", "pairs")     # the harness's own exposure rule
 REFUSED_NAMES = ("hidden", "_private", "__secret__", "__dict__", "__class__", "__init__", "nosuch", "incr.x", "snapshot.log",
                  "Incr", "", "incr ", "_pyroId", "log", "counter", "hidden.x", "__getattribute__", "secret_prop", "open_prop")
 NEVER_RUN = ("hidden", "_private", "__secret__", "secret_prop", "open_prop")
@@ -327,8 +342,9 @@ def execute(case, api):
                 for name, args, kwargs in wcalls:
                     getattr(batch, name)(*args, **kwargs)
                 wr = batch(oneway=True) if warm["oneway"] else batch()
-                if wr is not None:
-                    list(wr)
+                if wr is not None and warm.get("consume", "now") == "now":
+                    list(wr)        # ("late": its results are read only after the next batch was submitted; "never": not at all)
+                    wr = None
         seq0 = p._pyroSeq   # the proxy advances its sequence number when (and only when) it builds a request message
         try:
             if api == "raw":
@@ -383,6 +399,11 @@ def execute(case, api):
                 raise
             out.exc, out.exc_at = x, "submit"
         out.sent = p._pyroSeq != seq0
+        if warm and api != "raw" and warm.get("consume") == "late" and wr is not None:
+            try:
+                list(wr)
+            except Exception:
+                pass
         if out.exc_at == "submit":
             _guard(out.exc)
         try:
@@ -458,6 +479,20 @@ def _state_family(ref_snap, snap):
     return "state:differs"
 
 
+def _image(ser, v):
+    """what the serializer's documented mapping makes of a result: json and msgpack deliver tuples as lists"""
+    if ser in ("json", "msgpack"):
+        if isinstance(v, (tuple, list)):
+            return [_image(ser, x) for x in v]
+        if isinstance(v, dict):
+            return {k: _image(ser, x) for k, x in v.items()}
+    elif isinstance(v, tuple):
+        return tuple(_image(ser, x) for x in v)
+    elif isinstance(v, list):
+        return [_image(ser, x) for x in v]
+    return v
+
+
 def judge(case, ref, out, api):
     """-> list of (family, what)"""
     n = len(case["calls"])
@@ -494,7 +529,7 @@ def judge(case, ref, out, api):
             # a result sequence (possibly ended by an exception at a position)
             upto = min(len(out.results), len(ref.results))
             for i in range(upto):
-                if not V.same(out.results[i], ref.results[i]):
+                if not V.same(out.results[i], _image(case["ser"], ref.results[i])):
                     add("results-differ", "result %d (%s) is %s, sequential run gives %s" % (
                         i, case["calls"][i][0], _short(out.results[i]), _short(ref.results[i])))
                     break
@@ -582,7 +617,7 @@ dict_keys = st.one_of(st.sampled_from(KEY_POOL), st.sampled_from(KEY_POOL),
 messages = st.one_of(st.sampled_from(["boom", "boom", "", "é漢", "it's \"quoted\"\\", "\x00", "line\nbreak", "\U0001f600"]),
                      st.text(alphabet=st.characters(exclude_categories=("Cs",)), max_size=8))
 kw_names = st.sampled_from(["a", "b", "x", "n", "k", "v", "kind", "_u", "été", "名", "αβ", "class_", "def", "K9"])
-POS_PARAMS = {"__total__": ["n"], "incr": ["n"], "append": ["x"], "put": ["k", "v"], "get": ["k"], "fail_if": ["flag", "kind", "msg", "code"]}
+POS_PARAMS = {"note": ["x"], "pair": ["a", "b"], "pairs": ["a"], "__total__": ["n"], "incr": ["n"], "append": ["x"], "put": ["k", "v"], "get": ["k"], "fail_if": ["flag", "kind", "msg", "code"]}
 
 
 def _fixed(name, *arg_strategies):
@@ -602,7 +637,10 @@ _get = _fixed("get", dict_keys)
 _echo = st.tuples(st.lists(small_values, max_size=3), st.dictionaries(kw_names, small_values, max_size=3)).map(lambda t: ["echo", t[0], t[1]])
 _fail_no = _fixed("fail_if", st.sampled_from([False, 0, "", None, [], 0.0]), st.sampled_from(FAIL_KINDS), messages, small_ints)
 _total = _fixed("__total__", small_ints)
-benign_call = st.one_of(_total, _incr, _incr, st.just(["incr", [], {}]), _append, _append, _put, _put, _put, _get, _echo, _echo, _fail_no,
+_note = _fixed("note", small_values)
+_pair = _fixed("pair", small_values, small_values)
+_pairs = _fixed("pairs", small_values)
+benign_call = st.one_of(_total, _note, _pair, _pairs, _incr, _incr, st.just(["incr", [], {}]), _append, _append, _put, _put, _put, _get, _echo, _echo, _fail_no,
                         st.just(["snapshot", [], {}]))
 
 _raise = _fixed("fail_if", st.sampled_from([True, 1, "x", [0], -1.5, {"a": None}]),
@@ -655,7 +693,7 @@ def case_strategy(draw, ser, servertype):
     case = {"ser": ser, "servertype": servertype, "oneway": draw(st.booleans()), "calls": calls}
     if draw(st.integers(0, 3)) == 0:
         wc = [copy.deepcopy(c) for c in draw(st.lists(st.one_of(_incr, _append, _echo, _total), min_size=1, max_size=3))]
-        case["warmup"] = {"calls": wc, "oneway": draw(st.booleans())}
+        case["warmup"] = {"calls": wc, "oneway": draw(st.booleans()), "consume": draw(st.sampled_from(["now", "late", "never"]))}
     return case
 
 
